@@ -185,7 +185,12 @@ def ob_transform(ctx, prop, kind, s_, d, ncols, dstmode, buf, a=None, pre=None, 
         cex = check_outputs(alg, outs, coef, xs, ncols)
         return dict(cex=cex, same=same, events=list(w.events), rclass=(rc, rc2))
     try: paths = explore(w, go, max_paths=400)
-    except Unsupported as e: return inconc('exploration: %s' % e)
+    except Unsupported as e:
+        words = ((1 << d) if d >= 0 else 0) * ncols
+        if 'field word' in str(e) and pre is None and 0 < words <= 8:
+            # the code manipulates field words at bit level (outside the add/sub/mul contracts): decide this small class bit-precisely
+            return ob_transform_bits(ctx, prop, kind, s_, d, ncols, dstmode, buf, a, nthreads, str(e))
+        return inconc('exploration: %s' % e)
     desc = describe(kind, s_, d, ncols, dstmode, buf, a, pre)
     nm = names + (['nphase_y', 'nblock_y'] if pre else [])
     npaths = len(paths); soft = set()
@@ -210,6 +215,57 @@ def ob_transform(ctx, prop, kind, s_, d, ncols, dstmode, buf, a=None, pre=None, 
         return viol('%s/%s' % ('lifetime', ev[0]), '%s: %s' % (desc, ev[1]), replay=dict(kind=kind, s=s_, d=d, a=a, ncols=ncols, dstmode=dstmode, buf=buf, pre=pre, event=list(ev), nthreads=nthreads, params={}))
     return ok('%d schedule classes cover all 2^128 (nphase, nblock) values; every output word ≡ definition' % npaths,
               sample=dict(call=desc, schedule_classes=npaths, params_of_first_class=path_params(paths[0], nm)))
+
+def ob_transform_bits(ctx, prop, kind, s_, d, ncols, dstmode, buf, a, nthreads, why):
+    """bit-precise variant for small classes: 64-bit symbolic input words, the real asm of add/sub/mul interpreted, every output word proved
+       congruent to the definition on the integer encoding (multiplications are by the concrete twiddles, hence linear)"""
+    w = core.world(ctx.bdir, MODS); w.hooks = dict(w.base_hooks); w.concretize_div = True
+    desc = describe(kind, s_, d, ncols, dstmode, buf, a) + ' [bit-precise fallback: %s]' % why[:60]
+    class BitAlg:
+        def var(s, name): return z3.BitVec(name, 64)
+    def go(it):
+        this = new_object(w, it, s_, nthreads)
+        outs, xs, coef, same = do_call_bits(w, it, this, kind, d, ncols, dstmode, buf, a)
+        finish(w, it, this); return outs, xs, coef, same
+    try: paths = explore(w, go, max_paths=200)
+    except Unsupported as e: return inconc('bit-precise fallback: %s' % e)
+    nq = 0
+    for p in paths:
+        prm = path_params(p, ['nphase_x', 'nblock_x']); rep = dict(kind=kind, s=s_, d=d, a=a, ncols=ncols, dstmode=dstmode, buf=buf, pre=None, params=prm, nthreads=nthreads)
+        if p.status != 'ok': return viol('%s/%s' % (kind, getattr(p.result, 'kind', 'terminated')), '%s %s: %s' % (desc, prm, p.result), replay=rep)
+        outs, xs, coef, same = p.result
+        for k in range(len(coef)):
+            for c in range(ncols):
+                o = outs[k][c]; row = coef[k]
+                r = smt.prove(lambda tr: (tr.val(tobv(o, 64)) - sum(row[j] * tr.val(xs[j][c]) for j in range(len(row)))) % P == 0, assumptions=list(p.pc), timeout=60); nq += 1
+                if r.status == 'sat':
+                    rep['x'] = {nm: v for nm, v in r.model.items() if nm.startswith('x_')}
+                    okr, text = native_replay(ctx, rep)
+                    if okr: return viol('%s/wrong-value' % kind, '%s %s: output word [%d][%d] differs from the definition for a specific input representation [native replay: %s]' % (desc, prm, k, c, text), replay=rep)
+                    return inconc('ENCODING-MISMATCH: bit-precise counterexample does not reproduce natively (%s)' % text)
+                if r.status != 'unsat': return inconc('bit-precise fallback: %s' % r.info)
+    return ok('%d schedule classes, %d word congruences proved bit-precisely' % (len(paths), nq), sample=dict(call=desc))
+
+def do_call_bits(w, it, this, kind, d, ncols, dstmode, buf, a):
+    nphase = z3.BitVec('nphase_x', 64); nblock = z3.BitVec('nblock_x', 64)
+    def mk(rows, name, size_rows=None):
+        o = Obj(8 * (size_rows or rows) * ncols, name, 8); xs = [[z3.BitVec('x_%d_%d' % (j, c), 64) for c in range(ncols)] for j in range(rows)]
+        for j in range(rows):
+            for c in range(ncols): o.cells[j * ncols + c] = xs[j][c]
+        return o, xs
+    if kind in ('ntt', 'intt'):
+        n = 1 << d; src, xs = mk(n, 'src'); before = list(core.words(src))
+        dst = Ptr(Obj(8 * n * ncols, 'dst', 8), 0) if dstmode == 'other' else (Ptr(src, 0) if dstmode == 'same' else NULL)
+        bufp = Ptr(Obj(8 * n * ncols, 'buffer', 8), 0) if buf else NULL
+        it.call(NTT if kind == 'ntt' else INTT, [Ptr(this, 0), dst, Ptr(src, 0), n, ncols, bufp, nphase, nblock] + ([0, 0] if kind == 'ntt' else [0]))
+        outo = dst.obj if dstmode == 'other' else src
+        outs = [[outo.cells.get(k * ncols + c) for c in range(ncols)] for k in range(n)]
+        return outs, xs, dft_coef(w, d, kind == 'intt'), True
+    N = 1 << a; NE = 1 << d; inplace = dstmode == 'same'
+    inp, xs = mk(N, 'in', NE if inplace else N); out = inp if inplace else Obj(8 * NE * ncols, 'out', 8)
+    bufp = Ptr(Obj(8 * NE * ncols, 'buffer', 8), 0) if buf else NULL
+    it.call(EXT, [Ptr(this, 0), Ptr(out, 0), Ptr(inp, 0), NE, N, ncols, bufp, nphase, nblock])
+    return [[out.cells.get(k * ncols + c) for c in range(ncols)] for k in range(NE)], xs, lde_coef(w, a, d), True
 
 # ---------------------------------------------------------------- native replay
 class DefaultX(dict):
@@ -260,10 +316,15 @@ def native_replay(ctx, d):
             if out[k * ncols + c] % P != exp: return True, 'native output[%d][%d] = %#x (= %d mod p), definition gives %d' % (k, c, out[k * ncols + c], out[k * ncols + c] % P, exp)
     return False, 'native run agrees with the definition'
 
-def confirm(ctx, r):
+def confirm(ctx, r, prop=None):
     """turn an interpreter-level violation into a confirmed one where a native replay is meaningful"""
     if r['status'] != 'violation': return r
     rep = r.get('replay') or {}
+    if r['key'].split('/')[-1] in ('ub', 'misaligned'):
+        # language-level undefined behaviour (shift >= width, nsw/nuw overflow, misaligned vector access): silent on x86, so no native run
+        # can confirm it; it is C18's subject.  Other checks cannot continue past it and answer inconclusive.
+        if prop == 'C18': r['detail'] += ' [undefined behaviour at the language level: not observable in a native run; a sanitizer-class event reported from the interpreter]'; return r
+        return inconc('undefined behaviour reached while executing the call (%s); reported as a violation by C18, this check cannot continue past it' % r['detail'][:160])
     if rep.get('event') and rep['event'][0] in ('mismatched-free',): r['detail'] += ' [allocator mismatch is undefined behaviour that no native run observes; reported from the allocation-kind tracking of the interpreter]'; return r
     key = r['key'].split('/')[-1]
     if key in ('leak', 'object-mutated', 'uninit-read', 'oob-read', 'oob-write', 'uninit-output', 'src-modified', 'wrote-on-noop', 'mismatched-free', 'use-after-free'):
@@ -278,7 +339,7 @@ def confirm(ctx, r):
     if okr: r['detail'] += ' [native replay: %s]' % text; return r
     return inconc('ENCODING-MISMATCH: interpreter reports "%s" but the native library does not reproduce it (%s)' % (r['detail'][:200], text))
 
-def ob(ctx, *a, **kw): return confirm(ctx, ob_transform(ctx, *a, **kw))
+def ob(ctx, *a, **kw): return confirm(ctx, ob_transform(ctx, *a, **kw), prop=a[0] if a else None)
 
 def replay(ctx, d):
     if d.get('event'): return True, 'lifetime event (not observable natively): %s' % (d['event'],)
